@@ -477,6 +477,25 @@ def method_call(self, recv, name, pos, kw, node, fr, star=None, dstar=None):
     if name == 'append' and ra is not None and ra.kind == 'list' and len(pos) == 1 and self.class_of(recv) is None:
         self._rebind(node.func.value, T.mk_tuple(list(ra.args) + [pos[0]], 'list'), fr)
         return NONE
+    if name == 'update' and self.class_of(recv) is None and len(pos) <= 1:
+        # d.update({k1: v1, ...}, k2=v2)  ==  d[k1] = v1; ...; d[k2] = v2   (literal keys)
+        items = []
+        ok_ = True
+        if pos:
+            da_ = pos[0].single_atom()
+            if da_ is not None and da_.kind == 'dict' and all(
+                    k_.single_atom() is not None and k_.single_atom().kind == 'str' for k_, _ in da_.args):
+                items += list(da_.args)
+            else:
+                ok_ = False
+        items += [(lift(k_), v_) for k_, v_ in kw]
+        ra_ = recv.single_atom()
+        if ok_ and items and (ra_ is None or ra_.kind != 'dict'):
+            newv = recv
+            for k_, v_ in items:
+                newv = T.mk_store(newv, k_, v_)
+            self._rebind(node.func.value, newv, fr)
+            return NONE
     if name == 'setdefault' and len(pos) in (1, 2) and not kw and self.class_of(recv) is None:
         # d.setdefault(k, v)  ==  (d[k] = v  unless k in d);  value d[k]
         k_, v_ = pos[0], (pos[1] if len(pos) == 2 else NONE)
@@ -539,7 +558,8 @@ NPDEFAULTS = {
     'flip': {'axis': None}, 'fftshift': {'axes': None}, 'fft': {'n': None, 'axis': -1}, 'rfft': {'n': None, 'axis': -1},
     'cumsum': {'axis': None}, 'normal': {'loc': 0, 'scale': 1, 'size': None}, 'standard_normal': {'size': None},
     'uniform': {'low': 0, 'high': 1, 'size': None}, 'chisquare': {'size': None}, 'integers': {'high': None, 'size': None},
-    'clip': {}, 'array': {'dtype': None}, 'zeros': {}, 'full': {'dtype': None}, 'default_rng': {'seed': None},
+    'clip': {}, 'firwin': {'pass_zero': True, 'scale': True, 'window': 'hamming', 'width': None, 'fs': None},
+    'array': {'dtype': None}, 'zeros': {}, 'full': {'dtype': None}, 'default_rng': {'seed': None},
 }
 
 
@@ -567,6 +587,23 @@ def numpy_call(self, name, pos, kw):
         pos = pos[:1]
         for pname, v in zip(sig[1:], extra):
             kw.append((pname, v))
+    if name in ('fft', 'rfft') and pos and any(k == 'n' for k, _ in kw):
+        # fft(X, n=N, axis=a) with N the length of that axis is fft(X, axis=a)
+        kd = dict(kw)
+        ax = kd.get('axis')
+        axc = int(ax.const()) if ax is not None and ax.const() is not None else -1
+        X = pos[0]
+        d = T.shape_dim(X, axc) if axc >= 0 else None
+        if d is None and axc >= 0 and self.frames:
+            inl = _arity_of_package_call(self, X, ast.parse('f()', mode='eval').body, self.frames[-1], want='value')
+            if inl is not None:
+                ia_ = inl.single_atom()
+                if ia_ is not None and ia_.kind in ('after', 'loopvar') and len(ia_.args) == 2 and \
+                        (ia_.args[0], ia_.args[1]) in self.loop_shape:
+                    inl = self.loop_shape[(ia_.args[0], ia_.args[1])]      # only item stores in the loop: shape as on entry
+                d = T.shape_dim(inl, axc)
+        if d is not None and (d - kd['n']).is_zero():
+            kw = [(k, v) for k, v in kw if k != 'n']
     # a keyword spelled with its documented default is the same call as without it
     dflt = NPDEFAULTS.get(name, {})
     if kw:
@@ -667,7 +704,7 @@ def call_external(self, dotted, pos, kw, node, fr):
     return T.mk_call(dotted, pos, kw)
 
 
-def _arity_of_package_call(self, v, node, fr):
+def _arity_of_package_call(self, v, node, fr, want='arity'):
     """len(f(args)) of a package function kept opaque: the function's body is evaluated on those arguments (events
     discarded) and the length read off the tuples it returns"""
     a = v.single_atom()
@@ -701,6 +738,9 @@ def _arity_of_package_call(self, v, node, fr):
         self.record = rec
         del self.events[nev:]
         self.pending = []
+
+    if want == 'value':
+        return r
 
     def arity(t):
         ta = t.single_atom()
